@@ -17,7 +17,7 @@ func init() {
 			if tier == "quick" {
 				return 6000
 			}
-			return 100000
+			return 400000
 		},
 		Rule:        "case = a persisted version V0 (1..2500 entries, any config, cache none/big/tiny) followed by up to 6 batches; a batch is k in 0..6 modifications (insert / update / delete / delete+reinsert of the same entry / delete down to empty) or a no-op batch (nothing, Get, Iter, SeekIter, cursor walk, self-diff, re-insert of the stored value, failed deletes, reload); then MakeRoot with every Store recorded: stored names must be reachable from the returned root; a no-op batch must store nothing and return the same root; with unchanged height a stored name that belongs to V0 needs a modified key inside that node's closed key range [lo,hi] (ranges from the independent walker) and Store calls <= k*(2h+2); IsDirty() is sampled after every op and clean must imply contents equal to V0; non-trivial = h >= 2 AND k >= 1 AND height unchanged; distinct by (V0 root, batch)",
 		Assumptions: []string{"key range of a node = closed interval between the ancestors' separator keys that bound it (deleting or re-inserting a separator legitimately re-creates the nodes it bounds)"},
